@@ -15,6 +15,7 @@ import (
 	"fmt"
 	"strings"
 	"sync"
+	"time"
 
 	"verifharness/lib"
 )
@@ -336,6 +337,88 @@ func GenServer(c *lib.Ctx) {
 				c.Fail("c20srv:held-connection", "while one connection stayed open and silent in mid-request, another key exchange was not served (or the held one not refused when it ended)",
 					[]string{op}, map[string]any{"got": ans, "want": want})
 			}
+		}
+	}
+	genStorm(c, r, req)
+}
+
+// genStorm: C08 for the accept loops — bursts of connections that never become a key exchange
+// (aborted, silent and still open, garbage, failed handshakes; raw datagrams and failed handshakes
+// over QUIC), then a genuine exchange on the same listener. Direct oracle: the genuine exchange
+// gets the complete well-formed response (the byte contract of ksExpect) and gets it within
+// stormBound; a late one is repeated once alone before it is reported.
+const stormBound = 8 * time.Second
+
+func genStorm(c *lib.Ctx, r *lib.Rand, req []byte) {
+	type sc struct {
+		tr    string
+		kinds []string
+		n     int
+		hold  int
+	}
+	tlsKinds := []string{"rst", "silent", "garbage", "badalpn", "tls12", "hsabort"}
+	quicKinds := []string{"udpgarbage", "badalpn", "hsabort"}
+	var cases []sc
+	for _, k := range tlsKinds {
+		cases = append(cases, sc{"tls", []string{k}, 24, 8})
+	}
+	cases = append(cases, sc{"tls", tlsKinds, c.Scale(300, 2000), 64}, sc{"tls", []string{"rst", "hsabort"}, c.Scale(400, 3000), 0},
+		sc{"tls", []string{"silent"}, c.Scale(200, 900), c.Scale(200, 900)}, sc{"tls", nil, 0, 0})
+	for _, k := range quicKinds {
+		cases = append(cases, sc{"quic", []string{k}, 12, 0})
+	}
+	cases = append(cases, sc{"quic", []string{"udpgarbage", "udpgarbage", "udpgarbage", "hsabort", "badalpn"}, c.Scale(60, 400), 0}, sc{"quic", nil, 0, 0})
+	for _, s := range cases {
+		ip := ksQHost
+		if s.tr == "tls" {
+			ip = []string{"127.0.0.1", "127.0.0.2"}[r.Intn(2)]
+		}
+		var ks []string
+		for i := 0; i < s.n; i++ {
+			ks = append(ks, s.kinds[r.Intn(len(s.kinds))])
+		}
+		st := "-"
+		if len(ks) > 0 {
+			st = strings.Join(ks, ".")
+		}
+		op := fmt.Sprintf("ks.storm tr=%s ip=%s port=%d clen=124 segs=%s storm=%s hold=%d", s.tr, hexOf(ip), KsNTPPort,
+			hexList([][]byte{req[:7], req[7:]}), st, s.hold)
+		c.Comment("history ksrv storm")
+		ans := lib.Try(func() string { return ExecSrv(strings.Fields(op)) })
+		took := LastStormGenuine
+		if strings.HasPrefix(ans, "err harness-assumption-broken") || (strings.HasPrefix(ans, "ok ") && took > stormBound) || ans == "err no-answer" {
+			c.Count("ksrv:storm:retried-alone")
+			time.Sleep(500 * time.Millisecond)
+			ans = lib.Try(func() string { return ExecSrv(strings.Fields(op)) })
+			took = LastStormGenuine
+		}
+		if strings.HasPrefix(ans, "err harness-assumption-broken") {
+			c.NotExecuted("ksrv: storm: " + ans)
+			continue
+		}
+		c.Emit(op, ans)
+		c.Count("ksrv:" + s.tr + ":storm")
+		for _, k := range s.kinds {
+			c.Count("ksrv:storm:" + s.tr + ":" + k)
+		}
+		switch {
+		case took < 100*time.Millisecond:
+			c.Count("ksrv:storm:genuine-served-in<100ms")
+		case took < time.Second:
+			c.Count("ksrv:storm:genuine-served-in<1s")
+		default:
+			c.Count("ksrv:storm:genuine-served-in>=1s")
+		}
+		want := fmt.Sprintf("ok storm=%d %s", len(ks), ksExpect(req, ip)[3:])
+		switch {
+		case strings.HasPrefix(ans, "panic"):
+			c.Fail("c20srv:panic", "panic while serving a key exchange after a burst of aborted connections", []string{op}, map[string]any{"answer": ans})
+		case ans != want:
+			c.Fail("c20srv:genuine-exchange-not-served-after-storm", "after a burst of connections that never became a key exchange (aborted / silent / garbage / failed handshakes) a genuine exchange on the same listener did not get the complete response",
+				[]string{op}, map[string]any{"got": ans, "want": want})
+		case took > stormBound:
+			c.Fail("c20srv:genuine-exchange-late-after-storm", fmt.Sprintf("after a burst of connections that never became a key exchange the genuine exchange took %v (bound %v, confirmed by a second run)", took, stormBound),
+				[]string{op}, map[string]any{"took_ms": took.Milliseconds()})
 		}
 	}
 }
